@@ -571,6 +571,12 @@ fn blinded_section(ctx: &Ctx, rng: &mut Rng, rec: &mut Rec, thorough: bool, scal
 					rec.oracle_fail(format!("failure at hop {} ({}) of {}: sender reported within_blinded={} code={:?} scid={:?}", f, mode, what, dec.failed_within_blinded_path, dec.onion_error_code, dec.short_channel_id));
 				}
 			}
+			// impl oracle, one-hop blinded path (the recipient is the introduction node) and failures before the introduction node:
+			// an untouched failure is attributed by HMAC with the code that was sent, never reported as "within the blinded path"
+			if !corrupted && (b == 0 || role.is_none()) {
+				let exp_code = if role.is_some() { iob } else { code };
+				if dec.failed_within_blinded_path || dec.onion_error_code != Some(exp_code) { rec.oracle_fail(format!("failure at hop {} ({}) of {}: expected code {:#x} attributed by HMAC, sender reported within_blinded={} code={:?}", f, mode, what, exp_code, dec.failed_within_blinded_path, dec.onion_error_code)); }
+			}
 			// model comparison: node failures name the failing hop's own channel, so the index is comparable; update / perm
 			// failures of a hop BEFORE the introduction node name the next channel (real-side oracle above only)
 			let comparable = dec.failed_within_blinded_path || code & 0x2000 != 0 || dec.onion_error_code.is_none();
